@@ -106,6 +106,9 @@ def recalc_correspondence(case, out, stats):
                 n = None if key is None else node_s(int(op[1]), key)
                 if n is not None and descendants(edges, n):
                     stats["recalc_corr_sets_with_dependents"] += 1
+        if rec["model"] is None:
+            stats["recalc_corr_impl_only_stops"] += 1
+            return          # implementation-only vocabulary (execworld.impl_only): the driver has no answer to compare
         if rec["impl"] != rec["model"]:
             out.disagree(X.case_json(rcase), k, rec["impl"], rec["model"], layer="exec:recalc:result")
             return
